@@ -136,6 +136,13 @@ class LeaseCheckingCrawler(ShareCrawler):
         # the keys individually
         for k in so_far:
             self.state["cycle-to-date"].setdefault(k, so_far[k])
+        # the state file holds the lease-age histogram in its JSON-safe list
+        # form (see get_state); when a cycle is resumed after a restart,
+        # turn it back into the {(minage,maxage): count} dict we work with
+        lah = self.state["cycle-to-date"]["lease-age-histogram"]
+        if isinstance(lah, list):
+            self.state["cycle-to-date"]["lease-age-histogram"] = dict(
+                ((minage, maxage), count) for (minage, maxage, count) in lah)
 
     def create_empty_cycle_dict(self):
         recovered = self.create_empty_recovered_dict()
